@@ -260,273 +260,316 @@ func run(e *core.Env) {
 		sort.SliceStable(order, func(a, b int) bool { return depthOf(captured[order[a]]) > depthOf(captured[order[b]]) })
 		e.Probe("deep_chains_delivered_first")
 	}
-	for _, ci := range order {
-		orig := captured[ci]
-		f, err := mesh.ParseCrossing(parser, orig)
-		if err != nil {
-			continue
-		}
-		view, _ := mesh.ViewAnnounce(f)
-		ctx := signingContext(f)
-		apx := append([]byte(nil), f.AppendixData()...)
-		sbLen := len(f.SwitchBlock())
-		msgLen := len(f.MessageData())
-		origin := f.SrcIP()
-		f.ReturnToPool()
-		ls, ok := parseChain(apx)
-		if !ok {
-			e.Fail("honest-announcement-unparsable", "appendix of a real announcement does not parse")
-		}
-		depth := len(ls)
-		if depth >= 3 {
-			e.Probe("chain_depth>=3")
-		}
-		base := len(orig) - len(apx)
-		msgStart := 49 + sbLen + 2
-		pKey := map[int]*m.Address{0: P.ID}
-
-		// ---- manipulations (all must be rejected) ----
-		k := 3 + tp.Intn(6)
-		for t := 0; t < k; t++ {
-			switch min(tp.Intn(17), 13) {
-			case 13: // colluding relays: the record at level j keeps naming its router, but another mesh
-				// router signed it; every level outside it is re-signed by its real owner
-				if depth < 2 {
-					continue
-				}
-				j := 1 + tp.Intn(depth-1)
-				cp := append([]layer(nil), ls...)
-				named := cp[j].at.Router.IP
-				keyOfSigner, bump := tp.Chance(1, 2), uint16(0)
-				if tp.Chance(1, 2) {
-					bump = uint16(1 + tp.Intn(20))
-				}
-				if e.Trace {
-					holder := "none"
-					if ss := V.State.GetSession(named); ss != nil {
-						holder = "unknown-key"
-						for _, z := range ms.Nodes {
-							if bytes.Equal(ss.Address().PublicKey, z.ID.PublicKey) {
-								holder = z.Name
-							}
-						}
-					}
-					e.Logf("case13 depth=%d j=%d named=%s V holds for it the key of %s", depth, j, ms.Nodes[byIP[named]].Name, holder)
-				}
-				// every router of the mesh in turn: which key V may wrongly hold for the named
-				// router depends on what V has seen before
-				for _, z := range ms.Nodes {
-					if z.IP == named || z == V {
-						continue
-					}
-					fp := append([]layer(nil), cp...)
-					if keyOfSigner {
-						forged := fp[j].at.Router
-						forged.PublicKey = z.ID.PublicKey
-						fp[j].at.Router = forged
-					}
-					fp[j].at.Delay += bump
-					rs := map[int]*m.Address{j: z.ID}
-					for o := 0; o < j; o++ {
-						rs[o] = ms.Nodes[byIP[fp[o].at.Router.IP]].ID
-					}
-					e.Probe("record_signed_by_another_mesh_router")
-					reject(fmt.Sprintf("record at level %d signed by another router of the mesh", j), lPV, withAppendix(parser, orig, encodeChain(fp, ctx, rs)), depth)
-				}
-			case 12: // the complete, untouched hop-record chain of ANOTHER announcement of the same origin
-				var donors [][]byte
-				for cj, oc := range captured {
-					if cj == ci {
-						continue
-					}
-					if of, err := mesh.ParseCrossing(parser, oc); err == nil {
-						if of.SrcIP() == origin && len(of.AppendixData()) > 0 && !bytes.Equal(of.AppendixData(), apx) &&
-							!bytes.Equal(of.AuthData(), orig[msgStart+msgLen:msgStart+msgLen+64]) {
-							donors = append(donors, append([]byte(nil), of.AppendixData()...))
-						}
-						of.ReturnToPool()
-					}
-				}
-				if len(donors) == 0 {
-					continue
-				}
-				e.Probe("transplant_between_announcements_of_one_origin")
-				reject("transplant chain of another announcement of the same origin", lPV, withAppendix(parser, orig, donors[tp.Intn(len(donors))]), depth)
-			case 11: // a record that names a router V already knows, but carries the delivering peer's key and signature
-				if depth < 2 {
-					continue
-				}
-				cp := append([]layer(nil), ls...)
-				forged := cp[1].at.Router
-				forged.PublicKey = P.ID.PublicKey
-				cp[1].at.Router = forged
-				if tp.Chance(1, 2) {
-					cp[1].at.Delay = uint16(tp.Intn(10))
-				}
-				reject("impersonate known router with own key", lPV, withAppendix(parser, orig, encodeChain(cp, ctx, map[int]*m.Address{0: P.ID, 1: P.ID})), depth)
-			case 0: // body
-				mut := append([]byte(nil), orig...)
-				mut[msgStart+tp.Intn(msgLen)] ^= 1 << tp.Intn(8)
-				reject("body bit", lPV, mut, depth)
-			case 1: // origin signature
-				mut := append([]byte(nil), orig...)
-				mut[msgStart+msgLen+tp.Intn(64)] ^= 1 << tp.Intn(8)
-				reject("origin-signature bit", lPV, mut, depth)
-			case 2: // any byte of the chain, as is
-				if depth == 0 {
-					continue
-				}
-				mut := append([]byte(nil), orig...)
-				mut[base+tp.Intn(len(apx))] ^= 1 << tp.Intn(8)
-				reject("chain byte", lPV, mut, depth)
-			case 3: // a field of the record at level j, outer levels re-encoded, outermost re-signed by P
-				if depth == 0 {
-					continue
-				}
-				j := tp.Intn(depth)
-				cp := append([]layer(nil), ls...)
-				switch tp.Intn(3) {
-				case 0:
-					cp[j].at.Delay += uint16(1 + tp.Intn(50))
-				case 1:
-					cp[j].at.ForwardLabel ^= m.SwitchLabel(1 + tp.Intn(100))
-				default:
-					cp[j].at.ReturnLabel ^= m.SwitchLabel(1 + tp.Intn(100))
-				}
-				rs := map[int]*m.Address{}
-				if j > 0 && tp.Chance(2, 3) {
-					rs = pKey
-				}
-				reject(fmt.Sprintf("field-change at level %d resign=%v", j, len(rs) > 0), lPV, withAppendix(parser, orig, encodeChain(cp, ctx, rs)), depth)
-			case 4: // re-attribute: another router's address and key, signature kept
-				if depth == 0 {
-					continue
-				}
-				j := tp.Intn(depth)
-				cp := append([]layer(nil), ls...)
-				other := ms.Nodes[tp.Intn(len(ms.Nodes))]
-				if other.IP == cp[j].at.Router.IP {
-					other = Y
-				}
-				cp[j].at.Router = other.ID.PublicAddress
-				rs := map[int]*m.Address{}
-				if j > 0 && tp.Chance(2, 3) {
-					rs = pKey
-				}
-				reject(fmt.Sprintf("re-attribute level %d", j), lPV, withAppendix(parser, orig, encodeChain(cp, ctx, rs)), depth)
-			case 5: // splice inner records from another announcement
-				if depth == 0 || len(foreignChains) < 2 {
-					continue
-				}
-				oi := tp.Intn(len(foreignChains))
-				other := foreignChains[oi]
-				if len(other) > 0 && bytes.Equal(other[0].raw, ls[0].raw) {
-					continue
-				}
-				// Records of the SAME announcement that reached P over another path are
-				// records "for this very announcement": combining them is not a splice.
-				if bytes.Equal(foreignCtx[oi], ctx) {
-					continue
-				}
-				j := tp.Intn(depth)
-				cp := append(append([]layer(nil), ls[:j+1]...), other...)
-				if j == 0 {
-					cp = append([]layer{ls[0]}, other...)
-				}
-				reject("splice from another announcement", lPV, withAppendix(parser, orig, encodeChain(cp, ctx, pKey)), depth)
-			case 6: // swap two adjacent levels
-				if depth < 2 {
-					continue
-				}
-				j := tp.Intn(depth - 1)
-				cp := append([]layer(nil), ls...)
-				cp[j], cp[j+1] = cp[j+1], cp[j]
-				rs := map[int]*m.Address{}
-				if j > 0 {
-					rs = pKey
-				}
-				reject("reorder records", lPV, withAppendix(parser, orig, encodeChain(cp, ctx, rs)), depth)
-			case 7: // strip the outermost record: an earlier stage of the flood, delivered by the wrong peer
-				if depth == 0 {
-					continue
-				}
-				reject("strip outermost record", lPV, withAppendix(parser, orig, ls[0].at.NextAttachment), depth)
-			case 8: // strip an inner record, outermost re-signed by P
-				// (Stripping the record right below P's own only changes P's own
-				// statement - a malicious peer may always claim a shorter path - so
-				// the stripped record must lie deeper: then an honest router's
-				// record has to be re-encoded and its signature breaks.)
-				if depth < 3 {
-					continue
-				}
-				j := 2 + tp.Intn(depth-2)
-				cp := append(append([]layer(nil), ls[:j]...), ls[j+1:]...)
-				reject("strip inner record", lPV, withAppendix(parser, orig, encodeChain(cp, ctx, pKey)), depth)
-			case 9: // duplicate a record
-				if depth == 0 {
-					continue
-				}
-				j := tp.Intn(depth)
-				cp := append(append(append([]layer(nil), ls[:j+1]...), ls[j]), ls[j+1:]...)
-				rs := map[int]*m.Address{}
-				if j > 0 {
-					rs = pKey
-				}
-				reject("duplicate record", lPV, withAppendix(parser, orig, encodeChain(cp, ctx, rs)), depth)
-			case 10: // right announcement, wrong link
-				reject("delivered by a peer that is not the outermost signer", lYV, append([]byte(nil), orig...), depth)
-			}
-		}
-
-		// ---- honest delivery ----
-		before := V.Router.Table().VerifEntries()
-		inject(lPV, append([]byte(nil), orig...))
-		ms.CheckPanics("worker-panic")
-		after := V.Router.Table().VerifEntries()
-		// Look for a route to the origin via P whose relays are exactly the signers.
-		wantRouters := []netip.Addr{V.IP}
-		for _, l := range ls {
-			wantRouters = append(wantRouters, l.at.Router.IP)
-		}
-		wantRouters = append(wantRouters, origin)
-		var found *m.RoutingTableEntry
-		for i := range after {
-			en := &after[i]
-			if en.DstIP != origin || len(en.Path.Hops) != len(wantRouters) {
+	processRound := func(order []int) {
+		for _, ci := range order {
+			orig := captured[ci]
+			f, err := mesh.ParseCrossing(parser, orig)
+			if err != nil {
 				continue
 			}
-			same := true
-			for j, h := range en.Path.Hops {
-				if h.Router != wantRouters[j] {
-					same = false
+			view, _ := mesh.ViewAnnounce(f)
+			ctx := signingContext(f)
+			apx := append([]byte(nil), f.AppendixData()...)
+			sbLen := len(f.SwitchBlock())
+			msgLen := len(f.MessageData())
+			origin := f.SrcIP()
+			f.ReturnToPool()
+			ls, ok := parseChain(apx)
+			if !ok {
+				e.Fail("honest-announcement-unparsable", "appendix of a real announcement does not parse")
+			}
+			depth := len(ls)
+			if depth >= 3 {
+				e.Probe("chain_depth>=3")
+			}
+			base := len(orig) - len(apx)
+			msgStart := 49 + sbLen + 2
+			pKey := map[int]*m.Address{0: P.ID}
+
+			// ---- manipulations (all must be rejected) ----
+			k := 3 + tp.Intn(6)
+			for t := 0; t < k; t++ {
+				switch min(tp.Intn(17), 13) {
+				case 13: // colluding relays: the record at level j keeps naming its router, but another mesh
+					// router signed it; every level outside it is re-signed by its real owner
+					if depth < 2 {
+						continue
+					}
+					j := 1 + tp.Intn(depth-1)
+					cp := append([]layer(nil), ls...)
+					named := cp[j].at.Router.IP
+					keyOfSigner, bump := tp.Chance(1, 2), uint16(0)
+					if tp.Chance(1, 2) {
+						bump = uint16(1 + tp.Intn(20))
+					}
+					if e.Trace {
+						holder := "none"
+						if ss := V.State.GetSession(named); ss != nil {
+							holder = "unknown-key"
+							for _, z := range ms.Nodes {
+								if bytes.Equal(ss.Address().PublicKey, z.ID.PublicKey) {
+									holder = z.Name
+								}
+							}
+						}
+						e.Logf("case13 depth=%d j=%d named=%s V holds for it the key of %s", depth, j, ms.Nodes[byIP[named]].Name, holder)
+					}
+					// every router of the mesh in turn: which key V may wrongly hold for the named
+					// router depends on what V has seen before
+					for _, z := range ms.Nodes {
+						if z.IP == named || z == V {
+							continue
+						}
+						fp := append([]layer(nil), cp...)
+						if keyOfSigner {
+							forged := fp[j].at.Router
+							forged.PublicKey = z.ID.PublicKey
+							fp[j].at.Router = forged
+						}
+						fp[j].at.Delay += bump
+						rs := map[int]*m.Address{j: z.ID}
+						for o := 0; o < j; o++ {
+							rs[o] = ms.Nodes[byIP[fp[o].at.Router.IP]].ID
+						}
+						e.Probe("record_signed_by_another_mesh_router")
+						reject(fmt.Sprintf("record at level %d signed by another router of the mesh", j), lPV, withAppendix(parser, orig, encodeChain(fp, ctx, rs)), depth)
+					}
+				case 12: // the complete, untouched hop-record chain of ANOTHER announcement of the same origin
+					var donors [][]byte
+					for cj, oc := range captured {
+						if cj == ci {
+							continue
+						}
+						if of, err := mesh.ParseCrossing(parser, oc); err == nil {
+							if of.SrcIP() == origin && len(of.AppendixData()) > 0 && !bytes.Equal(of.AppendixData(), apx) &&
+								!bytes.Equal(of.AuthData(), orig[msgStart+msgLen:msgStart+msgLen+64]) {
+								donors = append(donors, append([]byte(nil), of.AppendixData()...))
+							}
+							of.ReturnToPool()
+						}
+					}
+					if len(donors) == 0 {
+						continue
+					}
+					e.Probe("transplant_between_announcements_of_one_origin")
+					reject("transplant chain of another announcement of the same origin", lPV, withAppendix(parser, orig, donors[tp.Intn(len(donors))]), depth)
+				case 11: // a record that names a router V already knows, but carries the delivering peer's key and signature
+					if depth < 2 {
+						continue
+					}
+					cp := append([]layer(nil), ls...)
+					forged := cp[1].at.Router
+					forged.PublicKey = P.ID.PublicKey
+					cp[1].at.Router = forged
+					if tp.Chance(1, 2) {
+						cp[1].at.Delay = uint16(tp.Intn(10))
+					}
+					reject("impersonate known router with own key", lPV, withAppendix(parser, orig, encodeChain(cp, ctx, map[int]*m.Address{0: P.ID, 1: P.ID})), depth)
+				case 0: // body
+					mut := append([]byte(nil), orig...)
+					mut[msgStart+tp.Intn(msgLen)] ^= 1 << tp.Intn(8)
+					reject("body bit", lPV, mut, depth)
+				case 1: // origin signature
+					mut := append([]byte(nil), orig...)
+					mut[msgStart+msgLen+tp.Intn(64)] ^= 1 << tp.Intn(8)
+					reject("origin-signature bit", lPV, mut, depth)
+				case 2: // any byte of the chain, as is
+					if depth == 0 {
+						continue
+					}
+					mut := append([]byte(nil), orig...)
+					mut[base+tp.Intn(len(apx))] ^= 1 << tp.Intn(8)
+					reject("chain byte", lPV, mut, depth)
+				case 3: // a field of the record at level j, outer levels re-encoded, outermost re-signed by P
+					if depth == 0 {
+						continue
+					}
+					j := tp.Intn(depth)
+					cp := append([]layer(nil), ls...)
+					switch tp.Intn(3) {
+					case 0:
+						cp[j].at.Delay += uint16(1 + tp.Intn(50))
+					case 1:
+						cp[j].at.ForwardLabel ^= m.SwitchLabel(1 + tp.Intn(100))
+					default:
+						cp[j].at.ReturnLabel ^= m.SwitchLabel(1 + tp.Intn(100))
+					}
+					rs := map[int]*m.Address{}
+					if j > 0 && tp.Chance(2, 3) {
+						rs = pKey
+					}
+					reject(fmt.Sprintf("field-change at level %d resign=%v", j, len(rs) > 0), lPV, withAppendix(parser, orig, encodeChain(cp, ctx, rs)), depth)
+				case 4: // re-attribute: another router's address and key, signature kept
+					if depth == 0 {
+						continue
+					}
+					j := tp.Intn(depth)
+					cp := append([]layer(nil), ls...)
+					other := ms.Nodes[tp.Intn(len(ms.Nodes))]
+					if other.IP == cp[j].at.Router.IP {
+						other = Y
+					}
+					cp[j].at.Router = other.ID.PublicAddress
+					rs := map[int]*m.Address{}
+					if j > 0 && tp.Chance(2, 3) {
+						rs = pKey
+					}
+					reject(fmt.Sprintf("re-attribute level %d", j), lPV, withAppendix(parser, orig, encodeChain(cp, ctx, rs)), depth)
+				case 5: // splice inner records from another announcement
+					if depth == 0 || len(foreignChains) < 2 {
+						continue
+					}
+					oi := tp.Intn(len(foreignChains))
+					other := foreignChains[oi]
+					if len(other) > 0 && bytes.Equal(other[0].raw, ls[0].raw) {
+						continue
+					}
+					// Records of the SAME announcement that reached P over another path are
+					// records "for this very announcement": combining them is not a splice.
+					if bytes.Equal(foreignCtx[oi], ctx) {
+						continue
+					}
+					j := tp.Intn(depth)
+					cp := append(append([]layer(nil), ls[:j+1]...), other...)
+					if j == 0 {
+						cp = append([]layer{ls[0]}, other...)
+					}
+					reject("splice from another announcement", lPV, withAppendix(parser, orig, encodeChain(cp, ctx, pKey)), depth)
+				case 6: // swap two adjacent levels
+					if depth < 2 {
+						continue
+					}
+					j := tp.Intn(depth - 1)
+					cp := append([]layer(nil), ls...)
+					cp[j], cp[j+1] = cp[j+1], cp[j]
+					rs := map[int]*m.Address{}
+					if j > 0 {
+						rs = pKey
+					}
+					reject("reorder records", lPV, withAppendix(parser, orig, encodeChain(cp, ctx, rs)), depth)
+				case 7: // strip the outermost record: an earlier stage of the flood, delivered by the wrong peer
+					if depth == 0 {
+						continue
+					}
+					reject("strip outermost record", lPV, withAppendix(parser, orig, ls[0].at.NextAttachment), depth)
+				case 8: // strip an inner record, outermost re-signed by P
+					// (Stripping the record right below P's own only changes P's own
+					// statement - a malicious peer may always claim a shorter path - so
+					// the stripped record must lie deeper: then an honest router's
+					// record has to be re-encoded and its signature breaks.)
+					if depth < 3 {
+						continue
+					}
+					j := 2 + tp.Intn(depth-2)
+					cp := append(append([]layer(nil), ls[:j]...), ls[j+1:]...)
+					reject("strip inner record", lPV, withAppendix(parser, orig, encodeChain(cp, ctx, pKey)), depth)
+				case 9: // duplicate a record
+					if depth == 0 {
+						continue
+					}
+					j := tp.Intn(depth)
+					cp := append(append(append([]layer(nil), ls[:j+1]...), ls[j]), ls[j+1:]...)
+					rs := map[int]*m.Address{}
+					if j > 0 {
+						rs = pKey
+					}
+					reject("duplicate record", lPV, withAppendix(parser, orig, encodeChain(cp, ctx, rs)), depth)
+				case 10: // right announcement, wrong link
+					reject("delivered by a peer that is not the outermost signer", lYV, append([]byte(nil), orig...), depth)
 				}
 			}
-			if same {
-				found = en
+
+			// ---- honest delivery ----
+			before := V.Router.Table().VerifEntries()
+			inject(lPV, append([]byte(nil), orig...))
+			ms.CheckPanics("worker-panic")
+			after := V.Router.Table().VerifEntries()
+			// Look for a route to the origin via P whose relays are exactly the signers.
+			wantRouters := []netip.Addr{V.IP}
+			for _, l := range ls {
+				wantRouters = append(wantRouters, l.at.Router.IP)
+			}
+			wantRouters = append(wantRouters, origin)
+			var found *m.RoutingTableEntry
+			for i := range after {
+				en := &after[i]
+				if en.DstIP != origin || len(en.Path.Hops) != len(wantRouters) {
+					continue
+				}
+				same := true
+				for j, h := range en.Path.Hops {
+					if h.Router != wantRouters[j] {
+						same = false
+					}
+				}
+				if same {
+					found = en
+				}
+			}
+			changed := len(before) != len(after) || tableKeyOf(before) != tableKeyOf(after)
+			if found != nil {
+				if found.NextHop != P.IP {
+					e.Fail("next-hop-is-not-delivering-peer", "route learned from an announcement delivered by P has next hop %s", found.NextHop)
+				}
+				for j, l := range ls {
+					h := found.Path.Hops[1+j]
+					if h.Delay != l.at.Delay || h.ForwardLabel != l.at.ForwardLabel || h.ReturnLabel != l.at.ReturnLabel {
+						e.Fail("route-hop-differs-from-signed-record", "hop %d of the learned route has delay/labels %d/%d/%d, the signed record says %d/%d/%d",
+							j, h.Delay, h.ForwardLabel, h.ReturnLabel, l.at.Delay, l.at.ForwardLabel, l.at.ReturnLabel)
+					}
+					// byte-identical to a production of that signer for this very announcement
+					if !prod[view.Instance][l.at.Router.IP][string(l.raw)] {
+						e.Fail("accepted-record-never-produced", "accepted hop record of %s at level %d was never put on a link by that router for this announcement", l.at.Router.IP, j)
+					}
+				}
+				e.Probe("honest_announcement_accepted")
+			} else if changed {
+				e.Fail("route-does-not-match-signers", "after an honest announcement with signers %v the table changed, but holds no route listing exactly those routers", wantRouters)
+			}
+			// let V's forwards flow
+			pump(50 * time.Millisecond)
+		}
+	}
+	processRound(order)
+
+	// ---- the next announcement round, five minutes later, over links whose delays have shifted ----
+	// (between two links of the line by the same amount, so that the sum along the path stays
+	// the same): what V holds afterwards must be what was signed in *this* round.
+	if tp.Chance(1, 3) {
+		var line []*simnet.Link
+		for _, l := range ms.Net.Links() {
+			if l.Local != V && l.Remote != V && l.Local != Y && l.Remote != Y {
+				line = append(line, l)
 			}
 		}
-		changed := len(before) != len(after) || tableKeyOf(before) != tableKeyOf(after)
-		if found != nil {
-			if found.NextHop != P.IP {
-				e.Fail("next-hop-is-not-delivering-peer", "route learned from an announcement delivered by P has next hop %s", found.NextHop)
-			}
-			for j, l := range ls {
-				h := found.Path.Hops[1+j]
-				if h.Delay != l.at.Delay || h.ForwardLabel != l.at.ForwardLabel || h.ReturnLabel != l.at.ReturnLabel {
-					e.Fail("route-hop-differs-from-signed-record", "hop %d of the learned route has delay/labels %d/%d/%d, the signed record says %d/%d/%d",
-						j, h.Delay, h.ForwardLabel, h.ReturnLabel, l.at.Delay, l.at.ForwardLabel, l.at.ReturnLabel)
-				}
-				// byte-identical to a production of that signer for this very announcement
-				if !prod[view.Instance][l.at.Router.IP][string(l.raw)] {
-					e.Fail("accepted-record-never-produced", "accepted hop record of %s at level %d was never put on a link by that router for this announcement", l.at.Router.IP, j)
+		if len(line) >= 2 {
+			a, b := line[tp.Intn(len(line))], line[tp.Intn(len(line))]
+			if a != b && a.Other != b {
+				d := uint16(1 + tp.Intn(20))
+				if a.Latency() > d {
+					a.SetLatency(a.Latency() - d)
+					a.Other.SetLatency(a.Other.Latency() - d)
+					b.SetLatency(b.Latency() + d)
+					b.Other.SetLatency(b.Other.Latency() + d)
+					e.Probe("link_delays_shifted_between_rounds")
 				}
 			}
-			e.Probe("honest_announcement_accepted")
-		} else if changed {
-			e.Fail("route-does-not-match-signers", "after an honest announcement with signers %v the table changed, but holds no route listing exactly those routers", wantRouters)
 		}
-		// let V's forwards flow
-		pump(50 * time.Millisecond)
+		first := len(captured)
+		pump(5*time.Minute + 2*time.Second)
+		ms.CheckPanics("worker-panic")
+		if len(captured) > first {
+			var second []int
+			for i := first; i < len(captured); i++ {
+				second = append(second, i)
+			}
+			for i := range second { // tape-ordered
+				j := i + tp.Intn(len(second)-i)
+				second[i], second[j] = second[j], second[i]
+			}
+			processRound(second)
+			e.Probe("second_announcement_round")
+		}
 	}
 
 	// ---- long chains signed with real keys of simulated identities ----
